@@ -246,8 +246,8 @@ PROPS = {
                                      "correspondence scope: every generated graph except those with schema ids and prefix-sibling documents (the areas of the open findings F9, F10, F10b), which are judged by the oracle only; multi-hop parameter/response/path-item chains and imported circular schemas are compared since the repairs of F7 and F8",
                                      "harness/refgraph.go: the oracle's own dereferencer (independent of the library's resolver)",
                                      "Codec/Codec.v (typed decoding of every resolved target) and Base/Url.v (normalizeURI, rebase)"],
-        "level_text": 'Coq theorems (Props/C02.v over Expand/ExpandSim.v, ExpandSimCheck.v), unbounded: meaning is defined relationally (chases: "$ref replaces its holder", resolved against the containing document; sim n: level-by-level comparison; bisimilar = all n). Proved for every document store, state (cache and memo, i.e. every history of earlier expansions and every visiting order), parent stack, fuel, SkipSchemas and AbsoluteCircularRef setting: a successful schema walk returns a value that, read at the root location, is bisimilar to its input read in its own document; resolveRef computes the document-relative target whatever root the resolver holds (resolver/base coherence is an invariant maintained by transitiveResolver); the graph hypotheses are decided by a verified checker (check_nodes_sound) and discharged by computation on a concrete cross-document cyclic graph. ELEMENT LEVEL (Expand/ExpandElem.v): the $ref chains of parameters/responses/path items (deref) are followed hop by hop in the document each hop lands in — holder, base and resolver root returned are those of the end of the chain, resolver and base coherent (the repaired defect F7 made this false) — and an expanded parameter/response has the members of the end of its chain with a bisimilar schema; discharged on a chain crossing two documents.',
-        "level_note": 'Partial: (1) the theorems cover the schema walk (expandSchema/expandSchemaRef), deref and expandParameterOrResponse; their composition over operations, path items and the four sections of ExpandSpec is not proved and rests on correspondence + oracle; a chain cut as circular (a parameter that refers only to itself) is outside the element theorem; (2) hypotheses carve out schema ids (F10/F10b), string-prefix sibling documents (F9) and ContinueOnError; (3) two URL-algebra facts (a kept-resolver reference stays in its document; the rendered text of a kept reference resolves back to the same target) are decided per graph by the checker, not proved for all URLs.',
+        "level_text": 'Coq theorems (Props/C02.v over Expand/ExpandSim.v, ExpandSimCheck.v), unbounded: meaning is defined relationally (chases: "$ref replaces its holder", resolved against the containing document; sim n: level-by-level comparison; bisimilar = all n). Proved for every document store, state (cache and memo, i.e. every history of earlier expansions and every visiting order), parent stack, fuel, SkipSchemas and AbsoluteCircularRef setting: a successful schema walk returns a value that, read at the root location, is bisimilar to its input read in its own document; resolveRef computes the document-relative target whatever root the resolver holds (resolver/base coherence is an invariant maintained by transitiveResolver); the graph hypotheses are decided by a verified checker (check_nodes_sound) and discharged by computation on a concrete cross-document cyclic graph. ELEMENT LEVEL (Expand/ExpandElem.v): the $ref chains of parameters/responses/path items (deref) are followed hop by hop in the document each hop lands in — holder, base and resolver root returned are those of the end of the chain, resolver and base coherent (the repaired defect F7 made this false) — and an expanded parameter/response has the members of the end of its chain with a bisimilar schema; discharged on a chain crossing two documents. SPECIFICATION LEVEL (Expand/ExpandChain.v, ExpandSpecSim.v): the chains of a well-formed element graph are followed to their end (the shared memo only ever holds references of the schema graph; a rank decreases along a chain), and the whole of ExpandSpec (expand_spec, the function the differential run executes) — lists of parameters, maps of responses, operations, path items, the four sections, the state invariant threaded from call to call — returns the input document with every definition, shared parameter, shared response and path item replaced by an element of the same meaning, names and order kept, vendor extensions and everything else untouched; hypotheses decided by five verified checkers and discharged on a two-document specification (C02_spec_example).',
+        "level_note": 'Partial: (1) the theorems cover ExpandSpec in strict, full mode (SkipSchemas is C09, ContinueOnError rests on correspondence + oracle); circular chains of parameters/responses/path items are outside the hypotheses (they denote nothing); the single-element entry points (C10) are tied to the same core by the correspondence; (2) hypotheses carve out schema ids (F10/F10b), string-prefix sibling documents (F9) and ContinueOnError; (3) two URL-algebra facts (a kept-resolver reference stays in its document; the rendered text of a kept reference resolves back to the same target) are decided per graph by the checker, not proved for all URLs.',
         "technique": "Coq proof (bisimulation by induction on fuel and tree size) about a hand-written executable model of the expander + differential run (exact on acyclic graphs, unfoldings on cyclic ones) + property oracle with an independent dereferencer on the implementation",
         "assumptions": ["loader is a function of the URL during one call", "the root document is served at its own location with the content the caller passes"],
     },
